@@ -25,7 +25,7 @@ def validate(ctx, events, table, label):
     return accepted, devs, res
 
 
-DIRECTED = ["cachekeys", "exclude-reload", "nth-cache", "exclude-race", "tail", "reload-race", "cachekeys"]
+DIRECTED = ["cachekeys", "exclude-reload", "nth-cache", "exclude-race", "tail", "reload-race", "reload-same-count"]
 
 
 def directed_kind(sid, race):
@@ -61,6 +61,13 @@ def make_job(ctx, rng, sid, race, kind=None):
         if kind == "exclude-reload" and (sid % 8 == 4 or rng.random() < 0.5):     # a reload of exactly the same size arriving in one burst
             relines = [pipeline.make_lines(rng, n, sparse=True)]
             rescheds = [[{"sleep": 0, "lines": relines[0]}]]
+        if kind == "reload-same-count":
+            n = rng.choice([150, 330])
+            lines = pipeline.make_lines(rng, n, sparse=True)
+            sched = [{"sleep": 0, "lines": lines}]
+            nrel = 1
+            relines = [pipeline.make_lines(rng, n + 40, sparse=True)]
+            rescheds = [[{"sleep": 0.8, "lines": relines[0][:n]}, {"sleep": 2.0, "lines": relines[0][n:]}]]
         steps = pipeline.scenario_steps(rng, kind, nrel)
     tail = 0
     if kind is None and sid % 3 == 2 and sid % 2 == 0:      # every sixth session runs under --tail
@@ -137,11 +144,12 @@ def run(ctx, prop="C08"):
     # that the minor-revision bump on a trimming snapshot is what keeps the merger cache sound under --tail)
     devs = {}
     for cfg, inv in (("MC_Pipeline_dev.cfg", "ConvergenceStrict"), ("MC_Pipeline_dev_stale.cfg", "NeverStale"),
-                     ("MC_Pipeline_dev_lost.cfg", "NeverLost"), ("MC_Pipeline_dev_trim.cfg", "PublishedIsFilter")):
+                     ("MC_Pipeline_dev_lost.cfg", "NeverLost"), ("MC_Pipeline_dev_trim.cfg", "PublishedIsFilter"),
+                     ("MC_Pipeline_dev_prevcount.cfg", "PublishedIsFilter")):
         r = ctx.tlc("FzfPipeline", cfg, workers=4, timeout=900, expect_ok=False, label="dev-" + inv)
         if r.code != 12 or not any(inv in e for e in r.errors):
             raise Infra("deviation config %s no longer yields its counterexample (exit %d)" % (cfg, r.code))
-        devs[inv] = "counterexample found (%d states explored)" % r.distinct
+        devs[cfg.replace("MC_Pipeline_", "").replace(".cfg", "") + ":" + inv] = "counterexample found (%d states explored)" % r.distinct
     ctx.cov["deviation_counterexamples"] = devs
     # cross-module lemmas: the Holds table / query lattice of the concurrent model means what FzfQuery.Matches says
     ctx.tlc("Fzf", "MC_Fzf.cfg", workers=2, timeout=600, label="root-lemmas")
@@ -152,7 +160,7 @@ def run(ctx, prop="C08"):
     fzf = ctx.build_fzf(race=race)
     fzf_oracle = ctx.build_fzf() if race else fzf
     rng = ctx.rng
-    nsess = ctx.pick(20, 600) if not race else ctx.pick(10, 400)
+    nsess = ctx.pick(21, 600) if not race else ctx.pick(10, 400)
     jobs = [make_job(ctx, rng, sid, race) for sid in range(nsess)]
     if ctx.replay:
         rp = json.load(open(ctx.replay))["case"]
